@@ -100,6 +100,9 @@ class TravBase(Check):
             while r_ % 5 == 2 or r_ % 7 == 3:
                 r_ += 11
             qs += list(trav_queries(nv, range(nv), unis[:1], [(0, 1), (2, 1)], via=str(r_)))
+            # an ff_via that cannot be hashed (k % 13 == 5)
+            r_ = rng.getrandbits(63)
+            qs += list(trav_queries(nv, range(nv), unis[:1], [(1, 1)], via=str(r_ - r_ % 13 + 5)))
             qs += list(trav_queries(nv, range(nv), unis[:2], [(0, 1), (1, 0)], res=str(res)))
             qs += list(trav_queries(nv, range(nv), unis[:1], [(1, 1)], via=str(via), res=str(res), listmode="gen"))
         else:
